@@ -4,6 +4,7 @@ import os
 import random
 import shutil
 import tempfile
+import zlib
 
 from engine import SPEC, gen_states, pool_map
 from readers import join_lines, run_cli, split_tag, write_text, workdir
@@ -36,8 +37,10 @@ def run_case(job):
         with open(tp, "w") as f:
             for k in range(filler):
                 f.write(f"other_read_{k:07d}\tH{1 + k % 2}\t{1000 + k % 977}\tchr{1 + k % 22}\n")
-            for row in tsv:
-                f.write("\t".join(row) + "\n")
+            # the table ends with LF, with CRLF throughout, or without a terminator after its last row
+            rows = ["\t".join(row) for row in tsv]
+            h = zlib.crc32(("tsv" + str(cid)).encode()) % 4
+            f.write(("\r\n".join(rows) + "\r\n") if h == 1 and rows else ("\n".join(rows) if h == 0 else "".join(r + "\n" for r in rows)))
         out = os.path.join(d, "out.gaf")
         r = run_cli(["phase", gaf, tp, "-o", out])
         txt = open(out).read() if os.path.exists(out) else ""
